@@ -1259,6 +1259,20 @@ class Interp:
             if isinstance(node, ast.Attribute):
                 obj = self.eval(node.value, env)
                 cur = self.getattr(obj, node.attr)
+                if isinstance(cur, SymArr):
+                    # an attribute assignment rebinds: the loop may leave a *new* array there
+                    # (other length, other contents); the old array object is not touched
+                    dims = []
+                    for k, d in enumerate(cur.shape):
+                        if k == 0 or not isinstance(simp(d), int):
+                            nd = self.ctx.fresh_int(f"{node.attr}_n{k}")
+                            self.ctx.assume(nd >= 0)
+                            dims.append(nd)
+                        else:
+                            dims.append(d)
+                    new = SymArr(cur.name, cur.ctype, dims, memview=cur.memview)
+                    self.setattr(obj, node.attr, new)
+                    continue
                 self.setattr(obj, node.attr, self.havoc_value(node.attr, cur, None))
             elif isinstance(node, ast.Name):
                 e = env.find(node.id)
